@@ -60,3 +60,73 @@ Example C16_node_premises_satisfiable :
   (forall x, node_flow mxV mxE false x -> node_flow_cost mxV mxfq mxsc [] x == 6 -> x 1%N == 10 /\ x 2%N == 10 /\ x 3%N == 10).
 Proof. exact mx_premises. Qed.
 Print Assumptions C16_node_premises_satisfiable.
+
+(* ---- audit additions (agent-c19): instances of the hypotheses the Example above does not reach ---- *)
+From FP Require ErrEncProofs2.
+
+(* (a) the solver hypotheses of C16_node_optimal_solution_is_closest_node_flow -- `sat a` and optimality of a -- hold for an explicit
+   assignment on the chain 1 -> 2 -> 3 (weights 10, 4, 10): 10 on every edge of the expansion, error 6 on the node edge of 2.
+   Optimality: every solution's objective dominates the distance of the node flow it reads back to (node_mef_solution_is_node_flow),
+   which is >= 6 by the Example above. *)
+Definition C16_node_wit_a (x : var) : Q :=
+  match x with
+  | V f [u; v] => if (f =? fX)%N then 10 else if (f =? fErr)%N then (if ((u =? 4) && (v =? 5))%N then 6 else 0) else 0
+  | V f [i] => if (f =? fFV)%N then 10 else if (f =? fFVU)%N then 1 else 0
+  | V f [u; v; i] => if (f =? fFVM)%N then 1 else 0
+  | _ => 0
+  end.
+
+Example C16_node_optimal_solution_hypotheses_satisfiable :
+  let I := node_mef_inst mxV mxE mxfq mxsc [] false in
+  sat C16_node_wit_a (encode_mef I) /\ objective C16_node_wit_a (encode_mef I) == 6 /\
+  (forall b, sat b (encode_mef I) -> obj_le (encode_mef I) C16_node_wit_a b).
+Proof.
+  cbn zeta. destruct C16_node_premises_satisfiable as (ND & _ & _ & Hdom & _ & _ & Hmin & _).
+  split; [apply ErrEncProofs2.sat_b_sound; vm_compute; reflexivity|]. split; [vm_compute; reflexivity|].
+  intros b Hb. unfold obj_le. change (maximize (encode_mef (node_mef_inst mxV mxE mxfq mxsc [] false))) with false. cbn iota.
+  destruct (node_mef_solution_is_node_flow mxV mxE mxfq mxsc [] false ND b Hdom Hb) as [F C].
+  pose proof (Hmin _ F) as H6.
+  assert (E6 : objective C16_node_wit_a (encode_mef (node_mef_inst mxV mxE mxfq mxsc [] false)) == 6) by (vm_compute; reflexivity).
+  rewrite E6. eapply Qle_trans; [exact H6|exact C].
+Qed.
+Print Assumptions C16_node_optimal_solution_hypotheses_satisfiable.
+
+(* (b) the hypothesis `sat a (encode_mef2 ...)` of C16_node_few_values_within_budget is satisfiable: same chain, the three node edges
+   as subset, eps = 0, opt = 6 (the first optimum), one value slot (the constant 10).  For eps, opt with (1 + eps) * opt below the
+   first optimum (e.g. opt = 0 here) NO assignment satisfies the second model and the theorem says nothing -- it is a statement
+   about the budget row, not about the choice of eps / opt / nvals, which the engine compares with the code (E2 rows of the second
+   model). *)
+Example C16_node_few_values_hypothesis_satisfiable :
+  sat C16_node_wit_a (encode_mef2 (node_mef_inst mxV mxE mxfq mxsc [] false) (map nedge mxV) 0 6 1).
+Proof. apply ErrEncProofs2.sat_b_sound. vm_compute. reflexivity. Qed.
+Print Assumptions C16_node_few_values_hypothesis_satisfiable.
+
+Example C16_node_few_values_budget_can_be_unsatisfiable :
+  forall a, ~ sat a (encode_mef2 (node_mef_inst mxV mxE mxfq mxsc [] false) (map nedge mxV) 0 0 1).
+Proof.
+  intros a Hs. destruct C16_node_premises_satisfiable as (ND & _ & _ & Hdom & _ & _ & Hmin & _).
+  destruct (C16_node_few_values_within_budget mxV mxE mxfq mxsc [] false ND _ _ _ _ a Hdom Hs) as [F C].
+  pose proof (Hmin _ F) as H6. assert (X : (1 + 0) * 0 == 0) by ring. rewrite X in C.
+  assert (Bad : 6 <= 0) by (eapply Qle_trans; [exact H6|exact C]). revert Bad. vm_compute. intros Bad. apply Bad. reflexivity.
+Qed.
+Print Assumptions C16_node_few_values_budget_can_be_unsatisfiable.
+
+(* (c) the caller-input premises with an IGNORED node, a node with error scaling 0 and weight_type = int: chain 1 -> 2 -> 3, node 2
+   ignored, node 3 with scaling 0 -- only node 1 is charged; the constant 10 is an integral node flow at distance 0 *)
+Definition C16_node_sc0 (v : node) : Q := if (v =? 3)%N then 0 else 1.
+Example C16_node_premises_satisfiable_with_ignored_and_unscaled_nodes :
+  NoDup mxV /\ NoDup mxE /\ nodes_basic mxV [2%N] C16_node_sc0 = [1%N] /\
+  node_mef_domain mxV mxfq C16_node_sc0 [2%N] true /\ node_flow mxV mxE true (fun _ => 10) /\
+  node_flow_cost mxV mxfq C16_node_sc0 [2%N] (fun _ => 10) == 0.
+Proof.
+  destruct C16_node_premises_satisfiable as (ND & NDE & _).
+  split; [exact ND|]. split; [exact NDE|]. split; [reflexivity|].
+  split; [split; [intros v Hv; cbn in Hv; destruct Hv as [<-|[]]; cbn; split; [discriminate|intros _; exists 10%Z; reflexivity]
+                 |intros v _; unfold C16_node_sc0; destruct (v =? 3)%N; discriminate]|].
+  split; [|vm_compute; reflexivity].
+  exists (fun _ => 10).
+  split; [intros e _; split; [discriminate|intros _; exists 10%Z; reflexivity]|].
+  split; [intros v _; split; [discriminate|intros _; exists 10%Z; reflexivity]|].
+  intros v Hv. cbn in Hv. destruct Hv as [<-|[<-|[<-|[]]]]; cbn; split; intros H; try (exfalso; apply H; reflexivity); ring.
+Qed.
+Print Assumptions C16_node_premises_satisfiable_with_ignored_and_unscaled_nodes.
